@@ -299,10 +299,10 @@ MEASURED48 = {
 
 
 def run(ctx):
-    n = ctx.pick(48, 640)
+    n = ctx.pick(48, 4000)
     seeds = [ctx.rng.randrange(1 << 30) for _ in range(n)]
     k = 16
-    ctx.shard([{"seeds": seeds[i::k]} for i in range(k)], timeout=ctx.pick(120, 500))
+    ctx.shard([{"seeds": seeds[i::k]} for i in range(k)], timeout=ctx.pick(120, 1500))
     for name, v in MEASURED48.items():
         ctx.floor(name, max(1, int(v / (3.0 if v >= 100 else 5.0) * n / 48.0)))
     ctx.floor("oracle_evaluations", int(73000 / 3.0 * n / 48.0))
